@@ -128,3 +128,18 @@ theorem tfrStops_on (own : TfrOwn) (k : Kind) (h1 : own.tt.failfast = true) (h2 
   unfold tfrStops; simp [h1, h2]
 
 end TTV.Lemmas.ResEmit
+
+namespace TTV.Result
+/- Bookkeeping for recursions that stop at stream decorators: the recursion scheme of `Shape.noStream`, but every graph
+is accepted (`cutS_all` in `Props/C04.lean`). -/
+mutual
+def Shape.cutS : Shape → Bool
+  | .e2s _ => true
+  | .etod c | .deco c | .tagger _ _ c | .tfr c => c.cutS
+  | .multi cs => Shape.cutSL cs
+  | _ => true
+def Shape.cutSL : List Shape → Bool
+  | [] => true
+  | c :: cs => c.cutS && Shape.cutSL cs
+end
+end TTV.Result
